@@ -20,6 +20,8 @@ type VEnum struct {
 	Build func(as, bs []int) any
 	// Touch mutates a result container (the receiver must not notice).
 	Touch   func(c any)
+	// Inv asserts the representation invariant of a container of this kind (results must be sound containers too).
+	Inv     func(c any)
 	Indexed bool // index-based: a is the position; Find's not-found result is (-1, 0)
 }
 
@@ -117,6 +119,9 @@ func VEnumStep(e VEnum) {
 	as2, bs2 := e.Seq(e.Recv)
 	vSame(as2, bs2, as, bs, "C14,C18:receiver-unchanged")
 	if result != nil {
+		if e.Inv != nil {
+			e.Inv(result)
+		}
 		v.Assert(!v.SameObject(result, e.Recv), "C14:result-is-the-receiver")
 		v.Assert(v.Disjoint(result, e.Recv), "C14:result-shares-state-with-receiver")
 		e.Touch(result)
